@@ -313,6 +313,113 @@ func lwOptions(repo string) (applies [][4]string, ctors [][4]string) {
 	return applies, ctors
 }
 
+// lwFieldWrites: every place in the library (all non-test Go files of the repository) that can change one of the two limit
+// fields of a Config: an assignment / inc-dec whose target is a selector `….LimitClient(Endpoint)ParallelRequests`, taking the
+// field's address, or a composite literal that initialises it. (file, enclosing function, field, how, value as written)
+func lwFieldWrites(repo string) [][5]string {
+	fields := map[string]bool{"LimitClientParallelRequests": true, "LimitClientEndpointParallelRequests": true}
+	var out [][5]string
+	var files []string
+	err := filepath.WalkDir(repo, func(path string, d os.DirEntry, err error) error {
+		if err != nil {
+			return err
+		}
+		name := d.Name()
+		if d.IsDir() {
+			if path != repo && (strings.HasPrefix(name, ".") || name == "vendor" || name == "testdata") {
+				return filepath.SkipDir
+			}
+			return nil
+		}
+		if strings.HasSuffix(name, ".go") && !strings.HasSuffix(name, "_test.go") {
+			files = append(files, path)
+		}
+		return nil
+	})
+	if err != nil {
+		fail("LimiterWiring field writes: %v", err)
+	}
+	sort.Strings(files)
+	selField := func(e ast.Expr) (string, bool) {
+		for {
+			switch x := e.(type) {
+			case *ast.ParenExpr:
+				e = x.X
+				continue
+			case *ast.StarExpr:
+				e = x.X
+				continue
+			case *ast.SelectorExpr:
+				return x.Sel.Name, fields[x.Sel.Name]
+			}
+			return "", false
+		}
+	}
+	for _, path := range files {
+		fset := token.NewFileSet()
+		f, err := parser.ParseFile(fset, path, nil, parser.SkipObjectResolution)
+		if err != nil {
+			fail("LimiterWiring field writes: %v", err)
+		}
+		rel, _ := filepath.Rel(repo, path)
+		rel = filepath.ToSlash(rel)
+		visit := func(where string, root ast.Node) {
+			ast.Inspect(root, func(n ast.Node) bool {
+				switch x := n.(type) {
+				case *ast.AssignStmt:
+					for i, l := range x.Lhs {
+						if fld, ok := selField(l); ok {
+							val := "?"
+							if len(x.Rhs) == len(x.Lhs) {
+								val = lwSrc(fset, x.Rhs[i])
+							} else if len(x.Rhs) == 1 {
+								val = lwSrc(fset, x.Rhs[0])
+							}
+							out = append(out, [5]string{rel, where, fld, "assign" + map[bool]string{true: "", false: ":" + x.Tok.String()}[x.Tok == token.ASSIGN], val})
+						}
+					}
+				case *ast.IncDecStmt:
+					if fld, ok := selField(x.X); ok {
+						out = append(out, [5]string{rel, where, fld, "incdec", x.Tok.String()})
+					}
+				case *ast.UnaryExpr:
+					if x.Op == token.AND {
+						if fld, ok := selField(x.X); ok {
+							out = append(out, [5]string{rel, where, fld, "address", lwSrc(fset, x)})
+						}
+					}
+				case *ast.KeyValueExpr:
+					if id, ok := x.Key.(*ast.Ident); ok && fields[id.Name] {
+						out = append(out, [5]string{rel, where, id.Name, "literal", lwSrc(fset, x.Value)})
+					}
+				}
+				return true
+			})
+		}
+		for _, d := range f.Decls {
+			switch fd := d.(type) {
+			case *ast.FuncDecl:
+				where := fd.Name.Name
+				if fd.Recv != nil && len(fd.Recv.List) == 1 {
+					where = recvTypeName(fd.Recv.List[0].Type) + "." + where
+				}
+				visit(where, fd)
+			case *ast.GenDecl:
+				for _, sp := range fd.Specs {
+					if vs, ok := sp.(*ast.ValueSpec); ok {
+						where := "var"
+						if len(vs.Names) > 0 {
+							where = "var " + vs.Names[0].Name
+						}
+						visit(where, vs)
+					}
+				}
+			}
+		}
+	}
+	return out
+}
+
 func genLimiterWiring(g *gen, repo string) {
 	ws := []lwWiring{lwPackage(repo, "udp/client"), lwPackage(repo, "tcp/client")}
 	embeds, own := lwClient(repo)
@@ -391,6 +498,8 @@ structure ServerWiring where
 		natList(applies, func(r [4]string) string { return fmt.Sprintf("(%q, %q, %q, %q)", r[0], r[1], r[2], r[3]) }))
 	fmt.Fprintf(&b, "/-- options/commonOptions.go: (constructor, option type built, field set, value: `param` = the constructor's parameter) -/\ndef optionCtors : List (String × String × String × String) := %s\n",
 		natList(ctors, func(r [4]string) string { return fmt.Sprintf("(%q, %q, %q, %q)", r[0], r[1], r[2], r[3]) }))
+	fmt.Fprintf(&b, "/-- every place in the non-test Go files of the repository that can change one of the two limit fields of a Config:\n    (file, enclosing function, field, how: assign / assign:<op> / incdec / address / literal, value as written) -/\ndef limitFieldWrites : List (String × String × String × String × String) := %s\n",
+		natList(lwFieldWrites(repo), func(r [5]string) string { return fmt.Sprintf("(%q, %q, %q, %q, %q)", r[0], r[1], r[2], r[3], r[4]) }))
 	b.WriteString("\nend CoapVerif.Generated.LimiterWiring\n")
 	g.write("LimiterWiring.lean", b.String())
 }
